@@ -817,9 +817,11 @@ func (c *updater) buildBackendProtocol(d *backData) {
 		var crtFile convtypes.CrtFile
 		namespace, name, err := crt.NamespacedName()
 		if err == nil {
+			// the declaring resource's namespace is the reference of the
+			// cross namespace check, the secret's own namespace goes qualified
 			crtFile, err = c.cache.GetTLSSecretPath(
-				namespace,
-				name,
+				crt.SourceNamespace(),
+				namespace+"/"+name,
 				[]convtypes.TrackingRef{{Context: convtypes.ResourceHABackend, UniqueName: d.backend.ID}},
 			)
 		}
@@ -856,8 +858,8 @@ func (c *updater) buildBackendProtocol(d *backData) {
 		namespace, name, err := ca.NamespacedName()
 		if err == nil {
 			caFile, crlFile, err = c.cache.GetCASecretPath(
-				namespace,
-				name,
+				ca.SourceNamespace(),
+				namespace+"/"+name,
 				[]convtypes.TrackingRef{{Context: convtypes.ResourceHABackend, UniqueName: d.backend.ID}},
 			)
 		}
